@@ -24,3 +24,14 @@ json.dump({'note': 'per function: its locals in first-binding order with the des
            'functions': ref}, open(os.path.join(HERE, 'reference', 'locals.json'), 'w'),
           indent=0, sort_keys=True)
 print(len(ref), 'functions with locals')
+
+# refusal conditions per layer (stonelint/conddrift.py)
+from stonelint import conddrift
+pm1 = Program('/repo')
+cond = {}
+for layer, (prefixes, excs, kw) in conddrift.LAYERS.items():
+    cond[layer] = conddrift.conditions(pm1, prefixes, excs, **kw)
+    print(layer, len(cond[layer]), 'refusal sites')
+json.dump(dict(cond, note='per refusal site (function|exception|message|ordinal): the canonical '
+                          'path condition at /repo HEAD; see stonelint/conddrift.py'),
+          open(os.path.join(HERE, 'reference', 'conditions.json'), 'w'), indent=0, sort_keys=True)
